@@ -1649,21 +1649,20 @@ class JsonSchemaParser(Parser):
                 # parse $id before parsing $ref
                 root_obj = self.SCHEMA_OBJECT_TYPE.parse_obj(raw)
                 self.parse_id(root_obj, path_parts)
-                definitions: dict[Any, Any] | None = None
-                _schema_path = ""
-                for _schema_path, split_schema_path in self.schema_paths:
+                # every container of named schemas is walked (a document may have both
+                # `definitions` and `$defs`)
+                definitions: list[tuple[str, Any, Any]] = []
+                for schema_path, split_schema_path in self.schema_paths:
                     try:
-                        definitions = get_model_by_path(raw, split_schema_path)
-                        if definitions:
-                            break
+                        found = get_model_by_path(raw, split_schema_path)
                     except KeyError:
                         continue
-                if definitions is None:
-                    definitions = {}
+                    if found:
+                        definitions.extend((schema_path, key, model) for key, model in found.items())
 
-                for key, model in definitions.items():
+                for schema_path, key, model in definitions:
                     obj = self.SCHEMA_OBJECT_TYPE.parse_obj(model)
-                    self.parse_id(obj, [*path_parts, _schema_path, key])
+                    self.parse_id(obj, [*path_parts, schema_path, key])
 
                 if object_paths:
                     models = get_model_by_path(raw, object_paths)
@@ -1671,8 +1670,8 @@ class JsonSchemaParser(Parser):
                     self.parse_obj(model_name, self.SCHEMA_OBJECT_TYPE.parse_obj(models), path)
                 else:
                     self.parse_obj(obj_name, root_obj, path_parts or ["#"])
-                for key, model in definitions.items():
-                    path = [*path_parts, _schema_path, key]
+                for schema_path, key, model in definitions:
+                    path = [*path_parts, schema_path, key]
                     reference = self.model_resolver.get(path)
                     if not reference or not reference.loaded:
                         self.parse_raw_obj(key, model, path)
